@@ -480,3 +480,33 @@ def rule_memo_source_failure(db: ProgramDB) -> List[Instance]:
     if n == 0:
         raise AnalysisError("HashedIterable: no generator loop over self.iterable")
     return out
+
+
+# ---------------------------------------------------------------------------------- SHARED-TAIL
+def rule_shared_tail(db: ProgramDB) -> List[Instance]:
+    """The one-shot source behind a lazily consumed domain is shared by every iteration over the wrapper.  An iteration that
+    is suspended while another one pulls (two variables over the same sub-query, a variable whose domain is another variable
+    of the query, two result iterators advanced alternately) has to be handed what the other pulled: the pull loop records
+    every pulled element in an ordered record of the wrapper, and the iterator replays the part of that record it has not
+    seen.  Replaying the memo once, at the start, loses those elements for good."""
+    out = []
+    hi = db.cls("HashedIterable")
+    m = hi.methods.get("__iter__")
+    if m is None or not m.is_generator:
+        raise AnalysisError("HashedIterable.__iter__ is not a generator")
+    pulls = [n for n in own_nodes(m.node) if isinstance(n, ast.For) and isinstance(n.iter, ast.Attribute) and n.iter.attr == "iterable"]
+    if not pulls:
+        raise AnalysisError("HashedIterable.__iter__: no loop over self.iterable")
+    for loop in pulls:
+        tn = {x.id for x in ast.walk(loop.target) if isinstance(x, ast.Name)}
+        records = {unparse(c.func.value) for c in ast.walk(loop) if isinstance(c, ast.Call) and call_attr(c) == "append" and c.args
+                   and {x.id for x in ast.walk(c.args[0]) if isinstance(x, ast.Name)} & tn and unparse(c.func.value).startswith("self.")}
+        replayed = {unparse(s.value) for y in own_nodes(m.node) if isinstance(y, ast.Yield) and y.value is not None
+                    for s in ast.walk(y.value) if isinstance(s, ast.Subscript) and unparse(s.value) in records}
+        ok = bool(records) and bool(replayed)
+        out.append(inst("SHARED-TAIL", HOLDS if ok else VIOLATION, m, "HashedIterable.__iter__[other iterations' pulls are replayed]",
+                        f"pulled elements are recorded in `{sorted(records)[0]}` and replayed from there by position" if ok else
+                        "an element another iteration pulls from the shared source while this one is suspended is never handed to this one (the memo is "
+                        "replayed once, at the start): two variables whose domain is the same sub-query, or two result iterators advanced "
+                        "alternately, each lose what the other pulled", line=loop.lineno))
+    return out
